@@ -598,3 +598,40 @@ pub(crate) mod verif_local {
         format!("{}", DocCommentFormatter::new(literal, style))
     }
 }
+
+#[cfg(feature = "verif-hooks")]
+pub(crate) mod verif_local_attrs {
+    use super::*;
+
+    /// The length of the run of sugared doc comments `take_while_with_pred` finds at the head.
+    pub(crate) fn doc_run_len(context: &RewriteContext<'_>, attrs: &[ast::Attribute]) -> usize {
+        take_while_with_pred(context, attrs, |a| a.is_doc_comment()).len()
+    }
+
+    /// The length of the run of derives `take_while_with_pred` finds at the head.
+    pub(crate) fn derive_run_len(context: &RewriteContext<'_>, attrs: &[ast::Attribute]) -> usize {
+        take_while_with_pred(context, attrs, is_derive).len()
+    }
+
+    pub(crate) fn is_derive(attr: &ast::Attribute) -> bool {
+        super::is_derive(attr)
+    }
+
+    pub(crate) fn format_derive(
+        derives: &[ast::Attribute],
+        shape: Shape,
+        context: &RewriteContext<'_>,
+    ) -> Option<String> {
+        super::format_derive(derives, shape, context)
+    }
+
+    pub(crate) fn comment_follows_on_line(context: &RewriteContext<'_>, span: Span) -> bool {
+        super::comment_follows_on_line(context, span)
+    }
+
+    /// `has_newlines_before_after_comment`: is the first / second string a line feed.
+    pub(crate) fn newlines_around_comment(gap: &str) -> (bool, bool) {
+        let (before, after) = has_newlines_before_after_comment(gap);
+        (!before.is_empty(), !after.is_empty())
+    }
+}
